@@ -281,12 +281,17 @@ func runCheck(prop string, opt *Options) int {
 	violations := 0
 	replayDir := filepath.Join(opt.Verif, "replays", prop)
 	var failNames []string
+	skipped := map[string]int{}
 	for _, o := range failed {
 		if o.Cover {
 			fmt.Printf("UNDECIDED: vacuity guard %s is unsatisfiable: the assumptions of %s are contradictory (%s)\n", o.Name, o.Func, o.Where)
 			if exit == 0 {
 				exit = 2
 			}
+			continue
+		}
+		if o.Status == "skipped" {
+			skipped[o.Func]++
 			continue
 		}
 		failNames = append(failNames, o.Name)
@@ -309,6 +314,9 @@ func runCheck(prop string, opt *Options) int {
 			line += " obligation=" + o.Name
 		}
 		fmt.Println(line)
+	}
+	for fn, n := range skipped {
+		fmt.Printf("NOTE: %d further obligations of %s were not attempted after %d of them had failed\n", n, fn, maxFailPerFunc)
 	}
 	for _, x := range extra.Violations {
 		violations++
